@@ -205,8 +205,9 @@ pub fn parse_response(raw: &[u8], rule: BodyRule) -> Result<Resp, Vec<String>> {
                         break;
                     }
                 }
-                if v.iter().any(|c| *c == b'\r' || *c == b'\n' || *c == 0) {
-                    errs.push(format!("header: control character in value of {}", crate::engine::show(name)));
+                // the property speaks of line breaks only; a bare CR is one, NUL is not
+                if v.iter().any(|c| *c == b'\r' || *c == b'\n') {
+                    errs.push(format!("header: line break in value of {}", crate::engine::show(name)));
                 }
                 headers.push((String::from_utf8_lossy(name).to_string(), String::from_utf8_lossy(v).to_string()));
             }
